@@ -1281,3 +1281,22 @@ def parse_trace_answer(ans):
         f = dict(t.split("=", 1) for t in ans.split()[1:] if "=" in t)
         return {"ok": True, "f": f, "tainted": f.get("taint") == "1"}
     return {"ok": False, "msg": ans, "tainted": " taint=1 " in ans}
+
+
+# re-synchronised after /repo fixes b1d94ba and 1a765e6: service() reads getattr(task.request, 'path', None) in its two log
+# lines and wraps the ladder's `task.service()  # must not fail` in one more handler (except BaseException: log;
+# task.close_on_finish = True).  Neither touches a shared channel attribute, a lock or a call on a shared object; the
+# worker now reaches the tail of service() where it used to leave it with the exception (C09_escape states the new flow).
+EXPECTED_SHAPE['channel.py:HTTPChannel.service'] = (
+    ('{ R:requests if v:v1 { v:v1 } else { v:v1 } try { if and( R:connected , not R:will_close , ) { v:v2 m:service '
+     'call:service() } else { v:v2 } } except:ClientDisconnected { v:getattr v:v2 R:request v:v2 } except:BaseException '
+     '{ v:getattr v:v2 R:request if not v:v2 { if { v:traceback } else { } v:v1 v:v1 v:InternalServerError v:v3 v:v6 '
+     'v:v4 v:v6 v:getattr v:v1 v:v6 try { v:v5 v:v6 } except:KeyError { } v:v6 try { v:v2 m:service call:service() } '
+     'except:ClientDisconnected { v:v2 } except:BaseException { v:v2 } } else { v:v2 } } if v:v2 { R:requests_lock with '
+     '{ W:close_when_flushed for R:requests { v:v1 m:close call:close() } W:requests } } else { if v:len R:requests '
+     'cmp:Gt:1 { m:_flush_outbufs_below_high_watermark call:_flush_outbufs_below_high_watermark() } if '
+     'R:current_outbuf_count cmp:Gt:0 { W:current_outbuf_count } v:v1 m:close call:close() R:requests_lock with { '
+     'R:requests m:pop call:pop() if and( R:connected , R:requests , ) { m:add_task call:add_task() } else { if and( '
+     'R:connected , R:request cmp:IsNot:None , R:request , R:request , not R:sent_continue , ) { m:send_continue '
+     'call:send_continue(do_close=False) } } } } if R:connected { m:pull_trigger call:pull_trigger() } v:time }')
+)
